@@ -38,6 +38,7 @@ inductive ErrClass where
   | movDeduce     -- "could not deduce mov instruction"
   | overlap       -- "overlaps existing datum"
   | constraint    -- any error of buildtags validation
+  | noPackage     -- "no package specified" (`Implement` without `Package`)
   deriving DecidableEq, Repr, Inhabited
 
 def ErrClass.tag : ErrClass → String
@@ -46,7 +47,7 @@ def ErrClass.tag : ErrClass → String
   | .notPointer => "notptr" | .noBase => "nobase" | .noLen => "nolen" | .noCap => "nocap"
   | .noReal => "noreal" | .noImag => "noimag" | .notArray => "notarray" | .arrayBounds => "arrbounds"
   | .notStruct => "notstruct" | .noField => "nofield" | .movDeduce => "mov" | .overlap => "overlap"
-  | .constraint => "constraint"
+  | .constraint => "constraint" | .noPackage => "nopkg"
 
 /-! ## Go types as far as component navigation looks at them -/
 
@@ -210,6 +211,32 @@ structure Fn where
   nodes : List Node := []
   pragmas : Nat := 0
   docs : Nat := 0
+  /-- the documentation lines (replaced by every `Doc` call) contain a line break
+  followed by text that is not a comment -/
+  docBreak : Bool := false
+  /-- some pragma (they accumulate) contains such a line break -/
+  pragmaBreak : Bool := false
+
+/-- ASCII part of the Go identifier syntax (the generator stays within ASCII). -/
+def isIdentStart (c : Char) : Bool := c.isAlpha || c == '_'
+def isIdentChar (c : Char) : Bool := c.isAlpha || c.isDigit || c == '_'
+
+def goKeywords : List String :=
+  ["break", "case", "chan", "const", "continue", "default", "defer", "else", "fallthrough", "for", "func",
+   "go", "goto", "if", "import", "interface", "map", "package", "range", "return", "select", "struct",
+   "switch", "type", "var"]
+
+/-- `name` can stand after `func` in a Go declaration. -/
+def isGoIdent (name : String) : Bool :=
+  match name.toList with
+  | [] => false
+  | c :: cs => isIdentStart c && cs.all isIdentChar && !goKeywords.contains name
+
+/-- The stub printer (`printer/stubs.go`) ends with `format.Source`, which fails
+when the text is not Go syntax: the declaration `func <name><signature>` with a
+name that is not an identifier, or a doc line / pragma with a line break that
+puts other text at declaration level. -/
+def Fn.stubBreaks (f : Fn) : Bool := !isGoIdent f.name || f.docBreak || f.pragmaBreak
 
 def Fn.nodeCount (f : Fn) : Nat := (f.nodes.map Node.count).sum
 
@@ -318,8 +345,10 @@ def Ctx.loadStore (c : Ctx) (slot regKind : Nat) (ded store : Bool) : Ctx :=
 inductive Op where
   | function (name : String)
   | attributes (a : Nat)
-  | doc
-  | pragma
+  /-- `Doc(lines…)`; `nl` = some line contains a line break followed by non-comment text -/
+  | doc (nl : Bool)
+  /-- `Pragma(directive, args…)`; `nl` as for `doc` -/
+  | pragma (nl : Bool)
   /-- `SignatureExpr`: `none` = the expression is rejected by the Go type checker (harness classification) -/
   | signature (s : Option Sig)
   /-- a generated instruction constructor; `valid` = the operands match a form (harness classification) -/
@@ -347,12 +376,18 @@ inductive Op where
   | constraintExpr (k : Constraint)
   /-- `Function(name)` followed by a register-pressure block (all valid calls) -/
   | pressure (name : String) (kind n : Nat)
+  /-- `Implement(name)` on a context without a package (`Package` is never called) -/
+  | implement (name : String)
+  /-- a builder call with a nil argument (`k` names the call).  What such a call
+  does is not pinned down by the property beyond "does not panic": the model
+  leaves the state alone and the statement (`Spec`) allows it to be reported or not. -/
+  | nilArg (k : Nat)
 
 def step (c : Ctx) : Op → Ctx
   | .function name => c.newFn name
   | .attributes a => c.withFn (fun f => { f with attrs := a })
-  | .doc => c.withFn (fun f => { f with docs := f.docs + 1 })
-  | .pragma => c.withFn (fun f => { f with pragmas := f.pragmas + 1 })
+  | .doc nl => c.withFn (fun f => { f with docs := f.docs + 1, docBreak := nl })
+  | .pragma nl => c.withFn (fun f => { f with pragmas := f.pragmas + 1, pragmaBreak := f.pragmaBreak || nl })
   | .signature none => c.addErr .sigExpr
   | .signature (some s) => c.withFn (fun f => { f with sig := s })
   | .instr valid i => if valid then c.addNode (.instr i) else c.addErr .badOperands
@@ -388,6 +423,8 @@ def step (c : Ctx) : Op → Ctx
         (if constraintsValid (c.cons ++ [k]) then { c with cons := c.cons ++ [k] } else c.addErr .constraint)
       else c.addErr .constraint
   | .pressure name kind n => (c.newFn name).addNode (.press kind n)
+  | .implement _ => c.addErr .noPackage
+  | .nilArg _ => c
 
 def run (c : Ctx) (ops : List Op) : Ctx := ops.foldl step c
 
@@ -523,8 +560,12 @@ def main (mx : Nat) (passes : List Pass) (c : Ctx) : Outcome :=
     let r := concat passes
     ⟨if r.ok then 0 else 1, r.executed, r.printed, if r.ok then 0 else 1⟩
 
-/-- The standard configuration: `pass.Compile`, then the assembly printer, then the stub printer. -/
+/-- Some function of the file makes the stub printer fail. -/
+def stubFails (c : Ctx) : Bool := c.fns.any Fn.stubBreaks
+
+/-- The standard configuration: `pass.Compile`, then the assembly printer (never
+fails), then the stub printer (fails when `format.Source` rejects its text). -/
 def stdPasses (lim : Nat → Nat) (c : Ctx) : List Pass :=
-  [⟨false, !(passFaults lim c.fns).isEmpty⟩, ⟨true, false⟩, ⟨true, false⟩]
+  [⟨false, !(passFaults lim c.fns).isEmpty⟩, ⟨true, false⟩, ⟨true, stubFails c⟩]
 
 end Avo.Ctx
